@@ -112,9 +112,56 @@ z := 3
 raise("Final", "f", {"a": {2: 3}})
 w := 4
 `},
+	// one of every kind of statement a thread can be stopped at (for describe,
+	// which pretty prints and serialises the node); none of its variables is
+	// an inject / extract target of the vocabulary
+	"misc": {Src: "misc", BP: 10, BP2: 26, Text: `import "lib" as lib
+sink s1
+  kindmatch ["a.b"],
+  priority 1
+{
+  log("x")
+}
+ll := [1, 2, 3]
+mm := {"k": 1, "j": [ll]}
+ll[0] := mm.k + lib.v
+if ll[0] == 2 {
+  yy := 1
+} elif false {
+  yy := 2
+} else {
+  yy := 3
+}
+for [kk, vv] in mm {
+  zz := kk
+}
+for ii in range(1, 2) {
+  continue
+}
+cnt := 0
+for cnt < 2 {
+  cnt := cnt + 1
+}
+try {
+  raise("E1", "msg", ll)
+} except "E1" as ee {
+  rr := ee.type
+} finally {
+  ff := 1
+}
+fn := func (aa, bb=2) {
+  return aa * bb
+}
+ss := "v={{fn(3)}} {{ll[0]}}"
+oo := not (ll[1] > 1 and true) or -ll[2] < 0
+len(ll)
+`},
 }
 
-var progNames = []string{"flat", "nest", "hold", "err"}
+var progNames = []string{"flat", "nest", "hold", "err", "misc"}
+
+// file served by the import locator
+const libSource = "v := 1\n"
 
 // ---------------------------------------------------------------------------
 
@@ -151,7 +198,7 @@ const maxActive = 2
 func newSession() *session {
 	s := &session{}
 	s.vs = scope.NewScope(scope.GlobalScope)
-	s.erp = interpreter.NewECALRuntimeProvider("c16", &util.MemoryImportLocator{Files: map[string]string{}}, util.NewNullLogger())
+	s.erp = interpreter.NewECALRuntimeProvider("c16", &util.MemoryImportLocator{Files: map[string]string{"lib": libSource}}, util.NewNullLogger())
 	s.dbg = interpreter.NewECALDebugger(s.vs)
 	s.erp.Debugger = s.dbg
 	s.vs.SetValue("hold", &holdFunc{s})
